@@ -104,6 +104,8 @@ package failsafehttp
 //@   ensures [C18.body.none] untypedBody == nil ==> result_0 == nil && result_1 == nil
 //@   ensures [C18.body.buffer] typeis(untypedBody, *bytes.Buffer) ==> result_1 == nil && clofn(result_0) == fnid("bodyReader$1")
 //@   ensures [C18.body.bytes_reader] typeis(untypedBody, *bytes.Reader) && reti(extfn("io.ReadAll"), 1, 2) == nil ==> result_1 == nil && clofn(result_0) == fnid("bodyReader$2")
+//@   ensures [C18.body.seekable] untypedBody != nil && !typeis(untypedBody, *bytes.Buffer) && !typeis(untypedBody, *bytes.Reader) && implements(untypedBody, io.ReadSeeker) ==> result_1 == nil && clofn(result_0) == fnid("bodyReader$3")
+//@   ensures [C18.body.plain_stream] untypedBody != nil && !typeis(untypedBody, *bytes.Buffer) && !typeis(untypedBody, *bytes.Reader) && !implements(untypedBody, io.ReadSeeker) && implements(untypedBody, io.Reader) && reti(extfn("io.ReadAll"), 1, 2) == nil ==> result_1 == nil && clofn(result_0) == fnid("bodyReader$4")
 //@   ensures [C18.body.read_error] typeis(untypedBody, *bytes.Reader) && reti(extfn("io.ReadAll"), 1, 2) != nil ==> result_0 == nil && result_1 == reti(extfn("io.ReadAll"), 1, 2)
 //@   havoc
 //@   modifies calls(extfn("io.ReadAll")), calls(extfn("fmt.Errorf"))
